@@ -244,7 +244,8 @@ class Job:
                     return
                 core.reset_quimb_state()
                 self._guard(lambda: setattr(self, "state", spec.start(init)))
-                self._guard(lambda: spec.invariant and spec.invariant(self.state))
+                if self.state is not None and not self.skip:
+                    self._guard(lambda: spec.invariant and spec.invariant(self.state))
 
             def _guard(self, fn):
                 """Run fn translating outcomes exactly like Job.execute."""
